@@ -66,6 +66,10 @@ def _const_elem(body, defs, op, consts):
         return {"aggval": rv}
     if rv["k"] == "use" and "const" in rv["a"]:
         return rv["a"]
+    if rv["k"] == "agg" and rv.get("agg") in ("tuple", "adt"):
+        # a value built once, before the loop, from whatever was at hand (`(CastlingKind::WhiteKingside, undone.white_kingside)`):
+        # each copy of the body gets that very value
+        return {"copy": {"l": p["l"], "p": [], "ty": p.get("ty", "?")}}
     return None
 
 
@@ -137,10 +141,28 @@ def _mentions(obj, l):
     return False
 
 
-def unroll_body(body, facts_bodies):
-    """Rewrite every qualifying loop of one body.  Returns the number of loops rewritten."""
+def count_loops(body, facts_bodies):
+    """How many loops of this body qualify (for the reference table: loops the reference tree already has stay loops)."""
+    return len(_candidates(body, facts_bodies, all_of_them=True))
+
+
+def unroll_body(body, facts_bodies, ref_count=0):
+    """Rewrite every qualifying *new* loop of one body: one inside code that was put in place (a new helper or closure), or
+    any qualifying loop of a function that had none in the reference tree.  Returns the number of loops rewritten."""
     done = 0
     for _attempt in range(8):
+        cands = _candidates(body, facts_bodies, all_of_them=True)
+        cands = [c for c in cands if body["blocks"][c[0]].get("spliced") or ref_count == 0]
+        if not cands:
+            break
+        _rewrite(body, *cands[0])
+        done += 1
+    return done
+
+
+def _candidates(body, facts_bodies, all_of_them=False):
+    found = []
+    if True:
         live = _live(body)
         defs = _single_def(body, live)
         cand = None
@@ -243,12 +265,10 @@ def unroll_body(body, facts_bodies):
             if any(_mentions(body["blocks"][x], it) for x in bset):
                 continue
             cand = (h, s, e_blk, b0, bset, n_local, it, elems)
-            break
-        if cand is None:
-            break
-        _rewrite(body, *cand)
-        done += 1
-    return done
+            found.append(cand)
+            if not all_of_them:
+                break
+    return found
 
 
 def _rewrite(body, h, s, e_blk, b0, bset, n_local, it, elems):
@@ -336,12 +356,19 @@ def _rewrite(body, h, s, e_blk, b0, bset, n_local, it, elems):
 
 def apply(facts):
     bodies = {j["key"]: j for j in facts["bodies"]}
+    try:
+        import json
+        import os
+        with open(os.path.join(os.path.dirname(os.path.abspath(__file__)), "known_closures.json")) as fh:
+            ref_counts = json.load(fh).get("array_loops", {})
+    except (OSError, ValueError):
+        ref_counts = {}
     log = []
     for j in facts["bodies"]:
         if j["kind"] not in ("fn", "closure"):
             continue
         try:
-            n = unroll_body(j, bodies)
+            n = unroll_body(j, bodies, ref_counts.get(j["key"], 0))
         except (KeyError, IndexError, TypeError):
             n = 0
         if n:
